@@ -217,6 +217,10 @@ func (tc *typechecker) checkConstantDeclaration(node *ast.Const) {
 			constType = ti.Type
 		} else {
 			constType = typ.Type
+			// The value of a typed constant is the value converted to the type.
+			if c, err := constValue.representedBy(constType); err == nil {
+				constValue = c
+			}
 		}
 
 		// Declare the constant in the current block/scope.
